@@ -231,6 +231,39 @@ def filt_check(n):
     return Res(v, o=(n % 2,), tr=len(CORNERS) * 6 + 12 + 6)
 
 
+# ---------------------------------------------------------------- filters against the definition, in sequences of calls (no hidden state)
+def fhist_cases(tier, seed):
+    N = 120 if tier == "quick" else 300
+    return [(a, min(a + 10, N + 1)) for a in range(4, N + 1, 10)]
+
+
+def _ref_response(n, si, b, typ):
+    f = np.fft.rfftfreq(n, si)
+    r = np.clip((f - b[0]) / (b[1] - b[0]), 0, 1)
+    hp = (1 - np.cos(r * np.pi)) / 2
+    return hp if typ == "hp" else 1 - hp
+
+
+def fhist_check(case):
+    a, bnd = case
+    seen = {}
+    ntr = 0
+    for n in range(a, bnd):
+        eye = np.eye(n)
+        b = [0.1, 0.2]
+        for seq in ((1.0, 0.5, 1.0), (0.002, 1 / 400., 0.002), (2.0, 1.0)):
+            for si in seq:
+                for typ, fn in (("lp", fourier.lp), ("hp", fourier.hp)):
+                    out = fn(eye, si, [b[0] / seq[0], b[1] / seq[0]], axis=1)          # the same corner values (Hz) whatever si
+                    ntr += 1
+                    H = _ref_response(n, si, [b[0] / seq[0], b[1] / seq[0]], typ)
+                    ref = np.fft.irfft(np.fft.rfft(eye, axis=1) * H[None, :], n, axis=1)
+                    if not np.allclose(out, ref, rtol=0, atol=1e-10):
+                        seen.setdefault("filter-definition:call-sequence", "n=%d: after calls with sampling intervals %r, %s(si=%r, corners %r) differs from its definition by %.3g"
+                                        % (n, seq, typ, si, [b[0] / seq[0], b[1] / seq[0]], float(np.max(np.abs(out - ref)))))
+    return Res(list(seen.items()), o="f", tr=ntr)
+
+
 # ---------------------------------------------------------------- explicit DFTs
 def dft_cases(tier, seed):
     N = 64 if tier == "quick" else 128
@@ -324,6 +357,7 @@ CHECK = {
         Clause("spectra", "freduce/fexpand/fscale for every n, every axis of 1-3-D arrays", cases=spec_cases, check=spec_check, setup=_setup),
         Clause("fastsize", "ns_optim_fft(n) for every n", cases=nso_cases, check=nso_check),
         Clause("filters", "lp+hp=id, bp=hp.lp on the impulse basis, every n, every axis", cases=filt_cases, check=filt_check, setup=_setup),
+        Clause("filter-sequences", "lp/hp equal their definition in call sequences with changing sampling interval", cases=fhist_cases, check=fhist_check),
         Clause("dft", "dft/dft2 vs numpy.fft for every n", cases=dft_cases, check=dft_check, setup=_setup),
         Clause("cosine", "fcn_cosine monotone 0..1 for bound pairs on dense grids", cases=cos_cases, check=cos_check),
     ],
